@@ -129,9 +129,14 @@ fn pos_of(d: &Deliv) -> Option<i128> {
 
 fn describe_call(rec: &RunRecord, ci: usize) -> String {
     let c = &rec.calls[ci];
+    let arg = if c.arg > usize::MAX / 4 {
+        format!("usize::MAX-{}", usize::MAX - c.arg)
+    } else {
+        c.arg.to_string()
+    };
     format!(
-        "call#{ci} T{} {:?}({}) [{}..{}]",
-        c.tid, c.kind, c.arg as i64, c.invoke, c.ret
+        "call#{ci} T{} {:?}({arg}) [{}..{}]",
+        c.tid, c.kind, c.invoke, c.ret
     )
 }
 
